@@ -232,6 +232,18 @@ func (C07) Run(s any, c *core.Ctx) core.Outcome {
 				continue
 			}
 			filters++
+			distinct := map[string]bool{}
+			for _, v := range vals {
+				if !v.IsNull() {
+					distinct[string(v.Bytes())] = true
+				}
+			}
+			if v := bloomUndersized("C07", bloomSpecs(sc.Plan.W), paths[ci], len(distinct), bf.Size()); v != nil {
+				v.Class += "/" + sc.Subject
+				v.Detail = fmt.Sprintf("row group %d column %v: %s", gi, paths[ci], v.Detail)
+				out.Violation = v
+				return out
+			}
 			for _, v := range vals {
 				if v.IsNull() {
 					continue
@@ -250,6 +262,37 @@ func (C07) Run(s any, c *core.Ctx) core.Outcome {
 			}
 		}
 		pos += n
+	}
+	// the same filters seen through a multi row group view: a member chunk without
+	// filter (not configured, or omitted for a chunk holding only nulls) must not
+	// turn its values into "absent"
+	if rgs := f.RowGroups(); len(rgs) >= 2 {
+		for ci, cc := range parquet.MultiRowGroup(rgs...).ColumnChunks() {
+			bf := cc.BloomFilter()
+			if bf == nil {
+				continue
+			}
+			n := 0
+			for _, v := range columnValues(model, ci) {
+				if v.IsNull() {
+					continue
+				}
+				if n++; n > 200 {
+					break
+				}
+				ok, err := bf.Check(v)
+				c.Step()
+				if err != nil {
+					out.Violation = core.Violate("C07/check-error/multi-view", "column %v: Check: %v", paths[ci], err)
+					return out
+				}
+				if !ok {
+					out.Violation = core.Violate("C07/false-negative/multi-view", "column %v through MultiRowGroup: written value %s reported absent", paths[ci], gen.FmtValue(v))
+					return out
+				}
+			}
+			c.Probe("multi-view-filters")
+		}
 	}
 	out.Nontrivial = filters > 0 && checked > 0
 	out.Sig = fmt.Sprintf("%s|%s|%s|%s|%v", sc.Subject, sc.Plan.Shape, sc.Plan.WriterKind, sc.Plan.W.Sig(), sc.SameOpts)
